@@ -20,6 +20,7 @@ package definition
 import (
 	"context"
 	"fmt"
+	"k8s.io/apimachinery/pkg/runtime"
 	"strings"
 	"time"
 
@@ -434,7 +435,7 @@ func (r *Reconciler) Reconcile(ctx context.Context, req reconcile.Request) (reco
 	}
 
 	origRV := ""
-	if err := r.client.Apply(ctx, crd, resource.MustBeControllableBy(d.GetUID()), resource.StoreCurrentRV(&origRV)); err != nil {
+	if err := r.client.Apply(ctx, crd, resource.MustBeControllableBy(d.GetUID()), resource.StoreCurrentRV(&origRV), keepFinalizers()); err != nil {
 		log.Debug(errApplyCRD, "error", err)
 		if kerrors.IsConflict(err) {
 			return reconcile.Result{Requeue: true}, nil
@@ -635,4 +636,22 @@ func (r *Reconciler) CompositeReconcilerOptions(ctx context.Context, d *v1.Compo
 	}
 
 	return o
+}
+
+// keepFinalizers carries the finalizers of the existing CRD over to the desired
+// one. We render CRDs without finalizers, so updating an existing CRD would
+// otherwise strip finalizers others rely on - in particular the API server's
+// cleanup finalizer that keeps a deleted CRD around until all of its custom
+// resources are gone.
+func keepFinalizers() resource.ApplyOption {
+	return func(_ context.Context, current, desired runtime.Object) error {
+		c, ok := current.(metav1.Object)
+		if !ok {
+			return nil
+		}
+		if d, ok := desired.(metav1.Object); ok {
+			d.SetFinalizers(c.GetFinalizers())
+		}
+		return nil
+	}
 }
